@@ -586,6 +586,99 @@ def a_clamp_helper(x, t):
 def b_clamp_helper(x, t):
     return _clamp_opt(x - t, lower=0)
 
+_PAIR_TABLE = {
+    "sum": a_helper,
+    "neg": b_helper_neg,
+}
+
+def b_helper_neg(x, y):
+    return x - y
+
+def a_table_items(kind, x, y):
+    if kind == "sum":
+        return a_helper(x, y)
+    if kind == "neg":
+        return b_helper_neg(x, y)
+    raise KeyError(kind)
+def b_table_items(kind, x, y):
+    for name, fn in _PAIR_TABLE.items():
+        if kind == name:
+            return fn(x, y)
+    raise KeyError(kind)
+
+def a_star_list(f, a, b, c):
+    return [f(a), f(b), f(c)]
+def b_star_list(f, a, b, c):
+    base = [f(a), f(b)]
+    return [*base, f(c)]
+
+def a_list_concat(f, a, b, c):
+    return [f(a), f(b), f(c)]
+def b_list_concat(f, a, b, c):
+    return [f(a), f(b)] + [f(c)]
+
+def a_itemgetter2(b):
+    return b[0], b[2]
+def b_itemgetter2(b):
+    import operator
+    return operator.itemgetter(0, 2)(b)
+
+def _axis_extent(b, axis):
+    if axis not in ("time", "frequency"):
+        raise ValueError(axis)
+    return (b[0], b[2]) if axis == "time" else (b[1], b[3])
+
+def a_axis_helper(b):
+    return b[0], b[2]
+def b_axis_helper(b):
+    return _axis_extent(b, "time")
+
+def a_table_member(kind, x):
+    if kind in ("sum", "neg"):
+        return x
+    return None
+def b_table_member(kind, x):
+    if kind in _PAIR_TABLE:
+        return x
+    return None
+
+class _Registry:
+    def __init__(self):
+        self._handlers = {}
+
+    def register(self, *names):
+        def decorator(handler):
+            for name in names:
+                self._handlers[name] = handler
+            return handler
+        return decorator
+
+    def get(self, key):
+        return self._handlers.get(key)
+
+_REG = _Registry()
+
+@_REG.register("p", "q")
+def _reg_first(x):
+    return x + 1
+
+@_REG.register("r")
+def _reg_second(x):
+    return x - 1
+
+_REG_LITERAL = {"p": _reg_first, "q": _reg_first, "r": _reg_second}
+
+def a_registry(kind, x):
+    fn = _REG_LITERAL.get(kind)
+    if fn is None:
+        raise KeyError(kind)
+    return fn(x)
+def b_registry(kind, x):
+    fn = _REG.get(kind)
+    if fn is None:
+        raise KeyError(kind)
+    return fn(x)
+
 def a_neq_option(m, xs):
     from scipy.sparse.csgraph import connected_components
     n, labels = connected_components(m)
@@ -606,7 +699,8 @@ EQUAL = ["helper", "raise_in_helper", "ite", "single_exit", "loop_append", "dict
          "record_methods", "any_display", "yield_chain", "unroll", "or_none", "demorgan", "map_fused", "cond_list",
          "search_loop", "comp_display", "star_display", "map_display", "dict_values", "dict_setitem", "empty_appends", "extend_comp",
          "multi_fill", "local_gen", "zip_display", "search_preset", "cond_record", "local_call", "explicit_defaults", "guarded_loop", "isinstance_tuple", "for_else", "range_spelled", "fancy_zip", "helper_kw",
-         "gen_return", "counted_while", "join_fstr", "minmax_ite", "gen_display", "int_fold", "dict_call", "clamp_helper"]
+         "gen_return", "counted_while", "join_fstr", "minmax_ite", "gen_display", "int_fold", "dict_call", "clamp_helper",
+         "table_items", "star_list", "list_concat", "itemgetter2", "axis_helper", "table_member", "registry"]
 DIFFERENT = ["neq_filter", "neq_later_mutation", "neq_order", "neq_search_default", "neq_option", "neq_gen_stop"]
 
 
